@@ -17,4 +17,11 @@ class C04(ProgProp):
         return cfg
 
 
+    def gen(self, rng, tier, k):
+        if k % 100 == 37:
+            from .. import gen as g
+            return self.motif_case(rng, tier, g.motif_wide(rng, "plain"))
+        return ProgProp.gen(self, rng, tier, k)
+
+
 PROP = C04()
